@@ -300,6 +300,40 @@ def follow (ps : List (Option Policy)) (init : Headers) :
     | (.deny, _) => (st.via.toList, .refused st.via.length)
     | (.useLast, _) => (st.via.toList, .lastResponse st.via.length)
 
+/-- Sticky cross-origin flag after following `ts` from `h0` (what `follow` keeps in
+`ChainState.stripped`). -/
+def crossed (h0 : Bytes) (ts : List Bytes) : Bool := ts.any fun t => goStrips false h0 t
+
+/-- The policy constructors as syntax (what a caller can pass to `SetRedirectPolicy` using
+redirect.go only; `nil` is a nil func). -/
+inductive PolicyDesc where
+  | nil
+  | no
+  | max (n : Int)
+  | sameHost
+  | sameDomain
+  | allowedHost (hosts : List Bytes)
+  | allowedDomain (hosts : List Bytes)
+  | alwaysCopy (headers : List Bytes)
+  deriving Repr
+
+def PolicyDesc.denote : PolicyDesc → Option Policy
+  | .nil => none
+  | .no => some noRedirectPolicy
+  | .max n => some (maxRedirectPolicy n)
+  | .sameHost => some sameHostRedirectPolicy
+  | .sameDomain => some sameDomainRedirectPolicy
+  | .allowedHost l => some (allowedHostRedirectPolicy l)
+  | .allowedDomain l => some (allowedDomainRedirectPolicy l)
+  | .alwaysCopy l => some (alwaysCopyHeaderRedirectPolicy l)
+
+/-- Header `k` is named (in canonical form) by some AlwaysCopy policy of the composition. -/
+def copyListed (ds : List PolicyDesc) (k : Bytes) : Bool :=
+  ds.any fun d =>
+    match d with
+    | .alwaysCopy l => l.any fun h => canonicalMIMEHeaderKey h == canonicalMIMEHeaderKey k
+    | _ => false
+
 def runChain (ps : List (Option Policy)) (h0 : Hop) (targets : List Bytes) : List Hop × Outcome :=
   follow ps h0.hdr { via := { first := h0 } } targets
 
